@@ -4,6 +4,7 @@ import ast
 
 from .. import AnalysisError, tables
 from ..pat import find_expr, find_stmt, match_expr, match_stmt
+from ..canon import canon
 from ..pm import src
 from ..q import FA, call_name, cfg_of, guard_facts, is_self_attr, walk_no_nested
 from ..resolve import resolver
@@ -265,11 +266,11 @@ def run(ctx):
 
     # ScaleAndShift
     sas = prog.cls(SAS)
-    for m, sign_, pats in (("reparameterise", -1, ["x_prime[pp] = (x[p] - self.shift[p]) / self.scale[p]", "x_prime[pp] = x[p] / self.scale[p]"]), ("inverse_reparameterise", 1, ["x[p] = x_prime[pp] * self.scale[p] + self.shift[p]", "x[p] = x_prime[pp] * self.scale[p]"])):
+    for m, sign_, pats in (("reparameterise", -1, ["x_prime[$$pp] = (x[$$p] - self.shift[$$p]) / self.scale[$$p]", "x_prime[$$pp] = x[$$p] / self.scale[$$p]"]), ("inverse_reparameterise", 1, ["x[$$p] = x_prime[$$pp] * self.scale[$$p] + self.shift[$$p]", "x[$$p] = x_prime[$$pp] * self.scale[$$p]"])):
         f = sas.methods[m]
         okm = all(len(find_stmt(p_, f.node)) == 1 for p_ in pats)
         js = [n for n in walk_no_nested(f.node) if isinstance(n, ast.AugAssign) and src(n.target) == "log_j"]
-        okj = len(js) == 1 and ((isinstance(js[0].op, ast.Sub) and sign_ < 0) or (isinstance(js[0].op, ast.Add) and sign_ > 0)) and match_expr("log(abs(self.scale[p]))", js[0].value) is not None
+        okj = len(js) == 1 and ((isinstance(js[0].op, ast.Sub) and sign_ < 0) or (isinstance(js[0].op, ast.Add) and sign_ > 0)) and match_expr("log(abs(self.scale[$$p]))", js[0].value) is not None
         ctx.ob("R-ALG", "C07.4", f, f"ScaleAndShift.{m}: map is affine in the parameter with slope scale^{-sign_ * -1 if False else ('-1' if sign_ < 0 else '+1')} and log_j changes by {'-' if sign_ < 0 else '+'}log|scale| once per parameter", okm and okj and _in_same_loop(f.node, js[0]), f"{[src(j) for j in js]}")
     # Angle (polar) and AnglePair (spherical)
     ang = prog.cls(ANGLE)
@@ -279,11 +280,13 @@ def run(ctx):
     bj = [n for n in walk_no_nested(fr.node) if isinstance(n, ast.AugAssign) and src(n.target) == "log_j"]
     ra_ = ang.methods["_rescale_angle"]
     sc = find_stmt("return (x[self.parameters[0]] * self.scale, x, x_prime, log_j)", ra_.node)
-    ok = len(bx) == 1 and len(by) == 1 and len(bj) == 1 and isinstance(bj[0].op, ast.Add) and len(sc) == 1
+    an = find_stmt("$$a, x, x_prime, log_j = self._rescale_angle(x, x_prime, log_j, **kwargs)", fr.node)
+    rn = find_stmt("$$r = self.chi.rvs(size=x.size)", fr.node)
+    ok = len(bx) == 1 and len(by) == 1 and len(bj) == 1 and isinstance(bj[0].op, ast.Add) and len(sc) == 1 and len(an) == 1 and len(rn) == 1
     if ok:
         S = sym.Sym()
         th, r, s = S.symbol("theta"), S.symbol("r"), S.symbol("scale")
-        sub = sym.Sym(subst={"angle": th * s, "r": r})
+        sub = sym.Sym(subst={src(an[0][1]["a"]): th * s, src(rn[0][1]["r"]): r})
         sub.syms = S.syms
         X, Y, J = sub.conv(bx[0][1]["a"]), sub.conv(by[0][1]["a"]), sub.conv(bj[0].value)
         ok = sym.differs_from_log_abs_by_constant(J, sym.det_jacobian([X, Y], [th, r]), [th, r])
@@ -356,16 +359,18 @@ def run(ctx):
     ok = len(lf) == 1 and len(li) == 1 and src(lf[0].iter) == "zip(self.parameters, self.prime_parameters)" and src(li[0].iter) == "zip(reversed(self.parameters), reversed(self.prime_parameters))"
     ctx.ob("R-SIB", "C07.5", inv, "RescaleToBounds: the inverse iterates the parameters in reversed order", ok, "")
     if ok:
-        steps_f = [src(s.test) for s in lf[0].body if isinstance(s, ast.If)]
-        steps_i = [src(s.test) for s in li[0].body if isinstance(s, ast.If)]
+        rf_ = {src(lf[0].target.elts[0]): "p", src(lf[0].target.elts[1]): "pp"} if isinstance(lf[0].target, ast.Tuple) else {}
+        ri_ = {src(li[0].target.elts[0]): "p", src(li[0].target.elts[1]): "pp"} if isinstance(li[0].target, ast.Tuple) else {}
+        steps_f = [canon(s.test, rename=rf_) for s in lf[0].body if isinstance(s, ast.If)]
+        steps_i = [canon(s.test, rename=ri_) for s in li[0].body if isinstance(s, ast.If)]
         ctx.ob("R-SIB", "C07.5", inv, "RescaleToBounds: the inverse undoes the steps of the forward map in reverse order under the same guards (post-rescaling, inversion-or-bounds, pre-rescaling)", steps_f == ["self.has_pre_rescaling", "self.boundary_inversion and p in self.boundary_inversion", "self.has_post_rescaling"] and steps_i == list(reversed(steps_f)), f"forward {steps_f}; inverse {steps_i}")
         calls_f = [[c.func.attr for c in walk_no_nested(s) if isinstance(c, ast.Call) and isinstance(c.func, ast.Attribute) and isinstance(c.func.value, ast.Name) and c.func.value.id == "self"] for s in lf[0].body if isinstance(s, ast.If)]
         calls_i = [[c.func.attr for c in walk_no_nested(s) if isinstance(c, ast.Call) and isinstance(c.func, ast.Attribute) and isinstance(c.func.value, ast.Name) and c.func.value.id == "self"] for s in li[0].body if isinstance(s, ast.If)]
         want_f = [["pre_rescaling"], ["_rescale_to_bounds", "_apply_inversion"], ["post_rescaling"]]
         want_i = [["post_rescaling_inv"], ["_inverse_rescale_to_bounds", "_reverse_inversion"], ["pre_rescaling_inv"]]
         ctx.ob("R-SIB", "C07.5", inv, "each inverse step calls the inverse of the matching forward step", [sorted(c) for c in calls_f] == [sorted(c) for c in want_f] and [sorted(c) for c in calls_i] == [sorted(c) for c in want_i], f"forward {calls_f}; inverse {calls_i}")
-        offf = find_stmt("x_prime[pp], lj = self._rescale_to_bounds(x_prime[pp] - self.offsets[p], p)", fwd.node)
-        offi = find_stmt("x[p] += self.offsets[p]", inv.node)
+        offf = find_stmt("x_prime[$$pp], $$lj = self._rescale_to_bounds(x_prime[$$pp] - self.offsets[$$p], $$p)", fwd.node)
+        offi = find_stmt("x[$$p] += self.offsets[$$p]", inv.node)
         ctx.ob("R-SIB", "C07.5", inv, "the offset subtracted before rescaling is added back after the inverse rescaling", len(offf) == 1 and len(offi) == 1, "")
     comb = prog.cls(tables.COMBINED)
     tp, fp_ = comb.methods["to_prime_order"], comb.methods["from_prime_order"]
